@@ -39,6 +39,46 @@ pub fn gen_rel(args: &Args) {
     };
     let shard = args.num("shard", 0);
     let shards = args.num("shards", 1);
+    if set == "literal-pool" {
+        // "whether equal literals occur elsewhere in the program": a literal Y means the same whether or not a
+        // literal X that is close to it (equal under ==, equal after rounding, equal spelling in another type)
+        // was written before it. Complete cross product; the law is `prepend`.
+        const LITS: &[&str] = &["0.0", "-0.0", "0", "-0", "1", "1.0", "-1", "-1.0", "ja", "nee", "\"1\"", "\"1.0\"", "\"\"", "\"ja\"",
+            "0.1", "0.10000000000000002", "0.3", "0.30000000000000004", "0.00000000000000001", "0.00000000000000002",
+            "1152921504606846975", "1152921504606846974", "-1152921504606846975", "1.5", "1.5000000000000002", "\"a\"", "\"A\"",
+            "4503599627370496.0", "4503599627370496.5", "4503599627370497.0", "100000000000000000000.0", "100000000000000000001.0"];
+        let mut id = first_id;
+        let mut k = 0u64;
+        for x in LITS {
+            for y in LITS {
+                k += 1;
+                if k % shards != shard {
+                    continue;
+                }
+                let texts = [format!("print({y}); print(string({y})); [{y}, {y} == {y}]"),
+                             format!("{x}; print({y}); print(string({y})); [{y}, {y} == {y}]")];
+                let mut obs: Vec<Value> = Vec::new();
+                for (which, text) in ["base", "var"].iter().zip(texts.iter()) {
+                    let p = w.parse(text);
+                    let r = w.eval(text, &opts);
+                    let mut rec = json!({"id":id,"fam":format!("literal-pool-{which}"),
+                        "nodes":p["tree"]["nodes"],"root":p["tree"]["root"],"parse_same":p["ok"] == true});
+                    for (kk, v) in r.as_object().unwrap() {
+                        rec[kk] = v.clone();
+                    }
+                    obs.push(rec["obs"].clone());
+                    if p["ok"] == true {
+                        writeln!(sem, "{}", rec).unwrap();
+                        writeln!(src, "{}", json!({"id":id,"text":text})).unwrap();
+                    }
+                    id += 1;
+                }
+                writeln!(rel, "{}", json!({"id":id - 2,"kind":"prepend","vdef":true,"base":obs[0],"var":obs[1],
+                       "base_text":texts[0],"var_text":texts[1]})).unwrap();
+            }
+        }
+        return;
+    }
     let kinds: Vec<&str> = if set == "fused-directed" {
         vec!["lit2var"]
     } else if set == "names" {
